@@ -11,6 +11,7 @@ import (
 
 	"verif/evid"
 	"verif/gen/corpus"
+	"verif/qcase"
 	"verif/xlate"
 )
 
@@ -168,4 +169,38 @@ func TestC03CorpusTriage(t *testing.T) {
 		}
 	}
 	t.Logf("%d corpus queries, %d fail, skips %v", n, bad, skips)
+}
+
+// TestC03Coverage (development aid): VERIF_COVER=<tsv written by the triage aid> lists the failing queries
+// that no exclusion predicate recognises.
+func TestC03Coverage(t *testing.T) {
+	file := os.Getenv("VERIF_COVER")
+	if file == "" {
+		t.Skip("development aid")
+	}
+	raw, err := os.ReadFile(file)
+	if err != nil {
+		t.Fatal(err)
+	}
+	by := map[string]int{}
+	uncovered := 0
+	for _, line := range strings.Split(strings.TrimSpace(string(raw)), "\n") {
+		parts := strings.SplitN(line, "\t", 2)
+		if len(parts) != 2 {
+			continue
+		}
+		model, err := xlate.Parse(parts[1])
+		if err != nil {
+			continue
+		}
+		id := qcase.C03ExcludedBy(model, func(string) bool { return true })
+		by[id]++
+		if id == "" {
+			uncovered++
+			if uncovered <= 60 {
+				t.Logf("UNCOVERED [%s]\n    %s", parts[0], parts[1])
+			}
+		}
+	}
+	t.Logf("covered by: %v; uncovered %d", by, uncovered)
 }
